@@ -145,10 +145,19 @@ def stuck_shape(toks):
     multi = [b for a, b in stuck if a == 3 and not subs[b][0] and len(subs[b][2]) >= 2]
     for x in multi:
         for y in multi:
-            if x < y and set(subs[x][2]) & set(subs[y][2]):
-                tys = set(subs[x][2]) | set(subs[y][2])
-                n_em = sum(1 for a2, b2 in stuck if a2 == 2 and ems[emits[b2][0]][0] in tys)
-                if n_em >= 2 and not any(a2 in (0, 1) for a2, b2 in stuck):
+            if x >= y:
+                continue
+            tx, ty_ = list(subs[x][2]), list(subs[y][2])
+            common = [t for t in tx if t in ty_]
+            # crossing type orders: two common types that the two Subscribes lock in opposite order
+            cross = [(p, q) for p in common for q in common
+                     if p != q and tx.index(p) < tx.index(q) and ty_.index(p) > ty_.index(q)]
+            for p, q in cross:
+                # an unreturned Emit on each of the two crossing types (each holds one node lock and is
+                # stalled on the sink of the other, not yet returned Subscribe), nobody stuck on the bus lock
+                ep = any(a2 == 2 and ems[emits[b2][0]][0] == p for a2, b2 in stuck)
+                eq = any(a2 == 2 and ems[emits[b2][0]][0] == q for a2, b2 in stuck)
+                if ep and eq and not any(a2 in (0, 1) for a2, b2 in stuck):
                     return "crossing-multi-type-Subscribes+Emits-stalled-on-half-registered-subscriptions"
     for a, b in stuck:
         if a == 3 and not subs[b][0] and len(subs[b][2]) >= 2:
